@@ -366,9 +366,13 @@ Local Opaque precedences unary_operand_prec binary_operand_prec loop_continues l
    model's own cursor primitives (so prev / peek are whatever the code makes them) *)
 Definition consume_ty (t : ty) (st : pstate) : pstate := fold_left (fun s _ => advance s) (render_ty t) st.
 
+(* lookupVar records that the variable has been read *)
+Definition atom_mark (a : atom) (st : pstate) : pstate :=
+  match a with AVar n => mark_used n st | _ => st end.
+
 Fixpoint consume (E : env) (l : lexp) (st : pstate) : pstate :=
   match l with
-  | LAtom _ _ => advance st
+  | LAtom a _ => atom_mark a (advance st)
   | LGroup _ e _ => pop_wss (advance_wss (consume E e (advance (push_wss false st))))
   | LUn _ e => consume E e (advance st)
   | LBin _ a _ b => consume E b (advance (consume E a st))
@@ -465,7 +469,7 @@ Lemma pop_wss_spec st w2 rest0 b w :
   (is_ws (look1 rest0) = false -> (w2 = false -> peek st = look1 rest0) -> peek (pop_wss st) = look1 rest0).
 Proof.
   intros Hr Hw Ht Hf. unfold pop_wss.
-  set (st1 := {| prev := prev st; rest := rest st; peek := peek st; wss := tl (wss st); errs := errs st |}).
+  set (st1 := {| prev := prev st; rest := rest st; peek := peek st; wss := tl (wss st); errs := errs st; used := used st |}).
   assert (W1 : wss st1 = w) by (unfold st1; simpl; rewrite Hw; reflexivity).
   assert (I1 : is_wss st1 = hd false w) by (unfold is_wss; rewrite W1; reflexivity).
   rewrite I1. destruct (hd false w) eqn:W.
@@ -544,6 +548,9 @@ Proof.
   - (* atom *)
     destruct (advance_tok st (atom_tok a) ws rest0) as (A & B & C & D & P); auto.
     { intro W. specialize (Ht W). simpl in Ht. destruct ws; [discriminate|reflexivity]. }
+    assert (Hm : forall s, rest (atom_mark a s) = rest s /\ wss (atom_mark a s) = wss s /\ errs (atom_mark a s) = errs s /\
+                           prev (atom_mark a s) = prev s /\ peek (atom_mark a s) = peek s) by (intro s; destruct a; simpl; auto).
+    destruct (Hm (advance st)) as (M1 & M2 & M3 & M4 & M5). rewrite M1, M2, M3, M4, M5.
     repeat split; auto. intros ->. rewrite D. apply atom_tok_not_ws.
   - (* group *)
     set (st0 := push_wss false st).
@@ -814,6 +821,11 @@ Proof.
   pose proof (rank_bounds o). lia.
 Qed.
 
+(* the theorems below are about programs the type checker accepts: the typing oracle never objects *)
+Definition no_tyerr (E : env) : Prop := forall s t n, e_tyerr E s t n = false.
+Lemma tyerr_false E s t st : no_tyerr E -> tyerr E s t st = false.
+Proof. intro H. apply H. Qed.
+
 (* unfolding equations of the two mutually recursive functions *)
 Lemma parse_expr_S E f p st :
   parse_expr E (S f) p st =
@@ -870,7 +882,7 @@ Qed.
 (* the prefix switch on the first token of an atom / unary / group *)
 Lemma prefix_atom E pe f st a r :
   atoms_ok E (LAtom a false) -> rest st = atom_tok a :: r ->
-  parse_prefix E pe f st = Some (Some (atom_tree a), advance st).
+  parse_prefix E pe f st = Some (Some (atom_tree a), atom_mark a (advance st)).
 Proof.
   intros Ha Hr. unfold parse_prefix, cur_t, cur. rewrite Hr.
   destruct a as [lit|lit|[]|n]; simpl in *.
@@ -884,7 +896,7 @@ Proof.
 Qed.
 
 Lemma prefix_un E pe f st o r :
-  rest st = mk (unop_tok o) :: r -> parse_prefix E pe f st = parse_unary pe st.
+  rest st = mk (unop_tok o) :: r -> parse_prefix E pe f st = parse_unary E pe st.
 Proof. intro Hr. unfold parse_prefix, cur_t, cur. rewrite Hr. destruct o; reflexivity. Qed.
 
 Lemma prefix_group E pe f st r :
@@ -989,29 +1001,30 @@ Proof.
 Qed.
 
 (* parseSlice after the colon *)
-Lemma parse_slice_spec E t : optP (pratt_stmt E) t ->
-  forall st w3 rest0 k left start,
+Lemma parse_slice_spec E t : no_tyerr E -> optP (pratt_stmt E) t ->
+  forall st w3 rest0 k tok left start,
   (match t with Some y => wl y /\ atoms_ok E y /\ layout_ok y = true | None => True end) ->
   rest st = (match t with Some y => render y | None => [] end) ++ mk T_RBRACKET :: wsl w3 ++ rest0 ->
   is_wss st = false ->
   (match t with Some y => S (spine y + Nat.max 1 (need y)) | None => 0 end) <= k ->
-  parse_slice E (parse_expr E k) k left start st =
+  parse_slice E (parse_expr E k) k tok left start st =
     Some (Some (TSlice left start (match t with Some y => Some (tree_of y) | None => None end)),
           slice_close E (match t with Some y => consume E y st | None => st end)).
 Proof.
-  intros IH st w3 rest0 k left start Ht Hr Hs Hk. unfold parse_slice. destruct t as [y|].
+  intros NT IH st w3 rest0 k tok left start Ht Hr Hs Hk. unfold parse_slice. repeat (rewrite (tyerr_false E) by exact NT). destruct t as [y|].
   - destruct Ht as (Hw & Ha & Hl). simpl in IH.
     rewrite not_rbracket_branch by (rewrite (cur_t_first y st _ Hr); apply first_not_rbracket).
     rewrite (toplevel_is_expr E _ _ st y _ Ha Hr).
     rewrite (sub_expr E y IH st (mk T_RBRACKET :: wsl w3 ++ rest0) k); auto.
     destruct (consume_spec E y st (mk T_RBRACKET :: wsl w3 ++ rest0)) as (A & _); auto.
     { rewrite Hs. discriminate. }
-    unfold assert_token, cur_t, cur. rewrite A. simpl. reflexivity.
-  - simpl in Hr. unfold cur_t, cur. rewrite Hr. simpl. reflexivity.
+    unfold assert_token, cur_t, cur. rewrite A. simpl. repeat (rewrite (tyerr_false E) by exact NT). reflexivity.
+  - simpl in Hr. unfold cur_t, cur. rewrite Hr. simpl. repeat (rewrite (tyerr_false E) by exact NT). reflexivity.
 Qed.
 
-Lemma pratt_general E : forall l, pratt_stmt E l.
+Lemma pratt_general E : no_tyerr E -> forall l, pratt_stmt E l.
 Proof.
+  intro NT.
   induction l as [a ws|w1 e w2 IH|o e IH|o a ws b IHa IHb|e w1 i w2 IHe IHi|e w1 s w2 t w3 IHe IHs IHt|e k0 w IHe|e w1 t w2 w3 IHe]
     using lexp_ind'; intros st rest0 p k Hwl Hat Hl Hr Ht Hf Hg Hstop Hp Hk.
   - (* atom *)
@@ -1060,7 +1073,7 @@ Proof.
       rewrite expr_loop_stop.
       2:{ unfold cur. rewrite A2. rewrite (is_wss_eq _ _ B2), W1. exact Hstop. }
       replace (cur_t st) with (unop_tok o) by (unfold cur_t, cur; rewrite Hr; reflexivity).
-      reflexivity.
+      repeat (rewrite (tyerr_false E) by exact NT). reflexivity.
     + rewrite W1. exact Ht.
     + rewrite W1. exact Hf.
     + rewrite W1. eapply stop_tok_mono; [exact Hle|exact Hstop].
@@ -1101,7 +1114,7 @@ Proof.
       set (sb := consume E b s1) in *.
       rewrite expr_loop_stop.
       2:{ unfold cur. rewrite A3. rewrite (is_wss_eq _ _ B3), W1. exact Hstop. }
-      reflexivity.
+      repeat (rewrite (tyerr_false E) by exact NT). reflexivity.
     + rewrite W1. exact Htb.
     + rewrite W1. exact Hf.
     + rewrite W1. eapply stop_tok_mono; [|exact Hstop]. apply rank_le_top_bp. lia.
@@ -1136,7 +1149,9 @@ Proof.
     { intro W; discriminate W. } { intros _. apply render_head_not_ws. }
     set (s1 := advance s0) in *.
     assert (W1 : is_wss s1 = false) by (apply (is_wss_pushed se _ false B2)).
+    repeat (rewrite (tyerr_false E) by exact NT).
     rewrite not_colon_branch by (rewrite (cur_t_first i s1 _ A2); apply first_not_colon).
+    cbn [andb].
     rewrite (toplevel_is_expr E _ _ s1 i _ Hai A2).
     rewrite (IHi s1 (mk T_RBRACKET :: wsl w2 ++ rest0) lowestPrec (S k')); auto.
     + destruct (consume_spec E i s1 (mk T_RBRACKET :: wsl w2 ++ rest0)) as (A3 & B3 & C3 & _); auto.
@@ -1144,7 +1159,7 @@ Proof.
       set (si := consume E i s1) in *.
       rewrite expr_loop_stop.
       2:{ right; right. unfold cur. rewrite A3. simpl. rewrite rbracket_lowest. lia. }
-      unfold assert_token, cur_t, cur. rewrite A3. simpl. reflexivity.
+      unfold assert_token, cur_t, cur. rewrite A3. simpl. repeat (rewrite (tyerr_false E) by exact NT). reflexivity.
     + rewrite W1. discriminate.
     + rewrite W1. right; right. simpl. rewrite rbracket_lowest, lowest_zero. lia.
     + apply p_ok_lowest.
@@ -1180,10 +1195,12 @@ Proof.
     { intro W; discriminate W. } { intros _. exact Hrs. }
     set (s1 := advance s0) in *.
     assert (W1 : is_wss s1 = false) by (apply (is_wss_pushed se _ false B2)).
+    repeat (rewrite (tyerr_false E) by exact NT).
     destruct s as [x|].
     + (* start index present *)
       simpl in IHs. unfold rs in A2.
       rewrite not_colon_branch by (rewrite (cur_t_first x s1 _ A2); apply first_not_colon).
+      cbn [andb].
       rewrite (toplevel_is_expr E _ _ s1 x _ Has A2).
       rewrite (sub_expr E x IHs s1 (mk T_COLON :: wsl w2 ++ rt) k); auto; [|lia].
       destruct (consume_spec E x s1 (mk T_COLON :: wsl w2 ++ rt)) as (A3 & B3 & C3 & _); auto.
@@ -1192,7 +1209,7 @@ Proof.
       unfold cur_t at 1, cur at 1. rewrite A3. simpl.
       destruct (advance_tok s2 _ _ _ A3) as (A4 & B4 & C4 & _).
       { rewrite (is_wss_eq _ _ B3), W1. discriminate. } { intros _. exact Hrt. }
-      rewrite (parse_slice_spec E t IHt (advance s2) w3 rest0 k); auto.
+      rewrite (parse_slice_spec E t NT IHt (advance s2) w3 rest0 k); auto.
       * destruct t; auto.
       * rewrite (is_wss_eq _ _ B4), (is_wss_eq _ _ B3). exact W1.
       * destruct t; lia.
@@ -1201,7 +1218,7 @@ Proof.
       unfold cur_t at 1, cur at 1. rewrite A2. simpl.
       destruct (advance_tok s1 _ _ _ A2) as (A4 & B4 & C4 & _).
       { rewrite W1. discriminate. } { intros _. exact Hrt. }
-      rewrite (parse_slice_spec E t IHt (advance s1) w3 rest0 k); auto.
+      rewrite (parse_slice_spec E t NT IHt (advance s1) w3 rest0 k); auto.
       * destruct t; auto.
       * rewrite (is_wss_eq _ _ B4). exact W1.
       * destruct t; lia.
@@ -1227,7 +1244,7 @@ Proof.
     rewrite (P1 eq_refl). simpl.
     unfold parse_dot.
     replace (is_ws (prev se)) with false by (symmetry; apply D1; destruct (last_ws e); [discriminate|reflexivity]).
-    rewrite A1. simpl.
+    rewrite A1. simpl. repeat (rewrite (tyerr_false E) by exact NT).
     destruct (advance_tok se (mk T_DOT) false (ident_tok k0 :: wsl w ++ rest0)) as (A2 & B2 & C2 & _); auto.
     unfold cur. rewrite A2. simpl. reflexivity.
   - (* type assertion *)
@@ -1262,8 +1279,8 @@ Proof.
     rewrite (parse_type_spec t s2 w2 r2 k A3 W2); [|reflexivity|lia].
     destruct (consume_ty_spec t s2 w2 r2 A3 W2) as (A4 & B4 & C4); [reflexivity|].
     set (s3 := consume_ty t s2) in *.
-    replace (match t with TyAny => add_err E_assert_any s3 | _ => s3 end) with s3 by (destruct t; congruence).
-    unfold assert_token, cur_t, cur. rewrite A4. simpl. reflexivity.
+    replace (match t with TyAny => add_err_at E_assert_any (here se) s3 | _ => s3 end) with s3 by (destruct t; congruence).
+    unfold assert_token, cur_t, cur. rewrite A4. simpl. repeat (rewrite (tyerr_false E) by exact NT). reflexivity.
 Qed.
 
 (* ================================================================ *)
@@ -1289,7 +1306,7 @@ Definition slice_guard (E : env) (l : lexp) (rest0 : list token) : Prop :=
   e_fix_slice E = false -> ends_with_slice l = true -> is_ws (look0 rest0) = false.
 
 Theorem pratt_layered E l st rest0 fuel :
-  Lay 0 l -> atoms_ok E l -> layout_ok l = true ->
+  no_tyerr E -> Lay 0 l -> atoms_ok E l -> layout_ok l = true ->
   rest st = render l ++ rest0 ->
   (is_wss st = true -> tight_ok l = true) ->
   (is_wss st = false -> is_ws (look0 rest0) = false) ->
@@ -1299,14 +1316,14 @@ Theorem pratt_layered E l st rest0 fuel :
   parse_expr E fuel lowestPrec st = Some (Some (tree_of l), consume E l st) /\
   rest (consume E l st) = rest0 /\ wss (consume E l st) = wss st /\ errs (consume E l st) = errs st.
 Proof.
-  intros HL Hat Hlo Hr Ht Hf Hg Hstop Hfuel.
+  intros NT HL Hat Hlo Hr Ht Hf Hg Hstop Hfuel.
   destruct (Lay_wl _ _ HL) as [Hwl _].
   pose proof (fuel_bound l) as Hb.
   destruct (consume_spec E l st rest0 Hr Hlo Ht Hf Hg) as (A & B & C & _).
   split; [|auto].
   assert (Hex : exists k, fuel = S (spine l + S k) /\ need l <= S k) by (exists (fuel - spine l - 2); lia).
   destruct Hex as (k & -> & Hk).
-  rewrite (pratt_general E l st rest0 lowestPrec (S k)); auto.
+  rewrite (pratt_general E NT l st rest0 lowestPrec (S k)); auto.
   - rewrite expr_loop_stop; [reflexivity|].
     unfold cur. rewrite A. rewrite (is_wss_eq _ _ B). exact Hstop.
   - eapply stop_tok_mono; [|exact Hstop]. rewrite lowest_zero. lia.
@@ -1316,7 +1333,7 @@ Qed.
 (* with the corrected parseSlice no guard is needed *)
 Theorem pratt_layered_fixed E l st rest0 fuel :
   e_fix_slice E = true ->
-  Lay 0 l -> atoms_ok E l -> layout_ok l = true ->
+  no_tyerr E -> Lay 0 l -> atoms_ok E l -> layout_ok l = true ->
   rest st = render l ++ rest0 ->
   (is_wss st = true -> tight_ok l = true) ->
   (is_wss st = false -> is_ws (look0 rest0) = false) ->
@@ -1325,7 +1342,7 @@ Theorem pratt_layered_fixed E l st rest0 fuel :
   parse_expr E fuel lowestPrec st = Some (Some (tree_of l), consume E l st) /\
   rest (consume E l st) = rest0 /\ wss (consume E l st) = wss st /\ errs (consume E l st) = errs st.
 Proof.
-  intros Hfix HL Hat Hlo Hr Ht Hf Hstop Hfuel. apply pratt_layered; auto.
+  intros Hfix NT HL Hat Hlo Hr Ht Hf Hstop Hfuel. apply pratt_layered; auto.
   intros Hc _. rewrite Hfix in Hc. discriminate Hc.
 Qed.
 
@@ -1339,7 +1356,7 @@ Qed.
 
 Theorem layout_irrelevant E l1 l2 st1 st2 r1 r2 fuel1 fuel2 :
   erase l1 = erase l2 ->
-  Lay 0 l1 -> Lay 0 l2 -> atoms_ok E l1 -> atoms_ok E l2 -> layout_ok l1 = true -> layout_ok l2 = true ->
+  no_tyerr E -> Lay 0 l1 -> Lay 0 l2 -> atoms_ok E l1 -> atoms_ok E l2 -> layout_ok l1 = true -> layout_ok l2 = true ->
   rest st1 = render l1 ++ r1 -> rest st2 = render l2 ++ r2 ->
   (is_wss st1 = true -> tight_ok l1 = true) -> (is_wss st2 = true -> tight_ok l2 = true) ->
   (is_wss st1 = false -> is_ws (look0 r1) = false) -> (is_wss st2 = false -> is_ws (look0 r2) = false) ->
@@ -1350,7 +1367,7 @@ Theorem layout_irrelevant E l1 l2 st1 st2 r1 r2 fuel1 fuel2 :
     parse_expr E fuel1 lowestPrec st1 = Some (Some t, s1) /\ rest s1 = r1 /\
     parse_expr E fuel2 lowestPrec st2 = Some (Some t, s2) /\ rest s2 = r2 /\ t = stree (erase l1).
 Proof.
-  intros He L1 L2 A1 A2 O1 O2 R1 R2 T1 T2 F1 F2 G1 G2 S1 S2 U1 U2.
+  intros He NT L1 L2 A1 A2 O1 O2 R1 R2 T1 T2 F1 F2 G1 G2 S1 S2 U1 U2.
   destruct (pratt_layered E l1 st1 r1 fuel1) as (P1 & Q1 & _); auto.
   destruct (pratt_layered E l2 st2 r2 fuel2) as (P2 & Q2 & _); auto.
   exists (tree_of l1), (consume E l1 st1), (consume E l2 st2).
@@ -1392,7 +1409,7 @@ Qed.
 Theorem left_assoc E o1 o2 a b c w1 w2 wa wb wc st rest0 fuel :
   rank o1 = rank o2 ->
   let l := LBin o2 (LBin o1 (LAtom a wa) w1 (LAtom b wb)) w2 (LAtom c wc) in
-  atoms_ok E l ->
+  no_tyerr E -> atoms_ok E l ->
   rest st = render l ++ rest0 ->
   (is_wss st = true -> tight_ok l = true) ->
   (is_wss st = false -> is_ws (look0 rest0) = false) ->
@@ -1402,7 +1419,7 @@ Theorem left_assoc E o1 o2 a b c w1 w2 wa wb wc st rest0 fuel :
     Some (Some (TBin (binop_tok o2) (TBin (binop_tok o1) (atom_tree a) (atom_tree b)) (atom_tree c)), st')
     /\ rest st' = rest0.
 Proof.
-  intros H l Hat Hr Ht Hf Hs Hfu.
+  intros H l NT Hat Hr Ht Hf Hs Hfu.
   destruct (pratt_layered E l st rest0 fuel) as (P & Q & _); auto.
   { apply Lay_left_assoc. exact H. } { intros _ Hc. discriminate Hc. }
   exists (consume E l st). split; [exact P|exact Q].
@@ -1411,7 +1428,7 @@ Qed.
 Theorem tighter_binds_first E o1 o2 a b c w1 w2 wa wb wc st rest0 fuel :
   rank o1 < rank o2 ->
   let l := LBin o1 (LAtom a wa) w1 (LBin o2 (LAtom b wb) w2 (LAtom c wc)) in
-  atoms_ok E l ->
+  no_tyerr E -> atoms_ok E l ->
   rest st = render l ++ rest0 ->
   (is_wss st = true -> tight_ok l = true) ->
   (is_wss st = false -> is_ws (look0 rest0) = false) ->
@@ -1421,7 +1438,7 @@ Theorem tighter_binds_first E o1 o2 a b c w1 w2 wa wb wc st rest0 fuel :
     Some (Some (TBin (binop_tok o1) (atom_tree a) (TBin (binop_tok o2) (atom_tree b) (atom_tree c))), st')
     /\ rest st' = rest0.
 Proof.
-  intros H l Hat Hr Ht Hf Hs Hfu.
+  intros H l NT Hat Hr Ht Hf Hs Hfu.
   destruct (pratt_layered E l st rest0 fuel) as (P & Q & _); auto.
   { apply Lay_tighter_right. exact H. } { intros _ Hc. discriminate Hc. }
   exists (consume E l st). split; [exact P|exact Q].
@@ -1431,7 +1448,7 @@ Qed.
    postfix forms:  -a[i] op b  is  (-(a[i])) op b *)
 Theorem unary_between E u o a i b w1 w2 w3 wi wb st rest0 fuel :
   let l := LBin o (LUn u (LIndex (LAtom a false) w1 (LAtom i wi) w2)) w3 (LAtom b wb) in
-  atoms_ok E l ->
+  no_tyerr E -> atoms_ok E l ->
   rest st = render l ++ rest0 ->
   (is_wss st = true -> tight_ok l = true) ->
   (is_wss st = false -> is_ws (look0 rest0) = false) ->
@@ -1441,7 +1458,7 @@ Theorem unary_between E u o a i b w1 w2 w3 wi wb st rest0 fuel :
     Some (Some (TBin (binop_tok o) (TUn (unop_tok u) (TIndex (atom_tree a) (atom_tree i))) (atom_tree b)), st')
     /\ rest st' = rest0.
 Proof.
-  intros l Hat Hr Ht Hf Hs Hfu.
+  intros l NT Hat Hr Ht Hf Hs Hfu.
   destruct (pratt_layered E l st rest0 fuel) as (P & Q & _); auto.
   { pose proof (rank_bounds o). apply (Lay_0_of (rank o)). apply Lay_bin.
     - apply (Lay_le _ rank_unary); [unfold rank_unary; lia|]. apply Lay_un.
@@ -1456,13 +1473,13 @@ Qed.
 (** * End to end: an inferred declaration  x := e  NL                *)
 
 Theorem decl_stmt_parses E x w0 w1 l fuel :
-  Lay 0 l -> atoms_ok E l -> layout_ok l = true ->
+  no_tyerr E -> Lay 0 l -> atoms_ok E l -> layout_ok l = true ->
   let toks := {| ttype := T_IDENT; tlit := x |} :: wsl w0 ++ mk T_DECLARE :: wsl w1 ++ render l ++ [mk T_NL] in
   2 * List.length toks <= fuel ->
   exists st', parse_stmt_expr E fuel 2 toks = Some (Some (tree_of l), st') /\
               rest st' = [mk T_NL] /\ is_at_eol st' = true /\ errs st' = [].
 Proof.
-  intros HL Hat Hlo toks Hfu. unfold parse_stmt_expr. simpl Nat.iter.
+  intros NT HL Hat Hlo toks Hfu. unfold parse_stmt_expr. simpl Nat.iter.
   set (s0 := init_state toks).
   assert (W0 : is_wss s0 = false) by reflexivity.
   destruct (advance_tok s0 {| ttype := T_IDENT; tlit := x |} w0 (mk T_DECLARE :: wsl w1 ++ render l ++ [mk T_NL]))
